@@ -670,3 +670,70 @@ Section MapChoiceExact.
         destruct (lookup_decl decls kind true ls); reflexivity.
   Qed.
 End MapChoiceExact.
+
+(* ---------------------------------------------------------------- the map records of a CDB database *)
+
+Definition decl_line (d : mapdecl) : mapline :=
+  mkMapline (md_kind d) (pack_labels (md_name d)) (md_wild d) (md_id d).
+Definition wf_declb (d : mapdecl) : bool :=
+  ((md_kind d =? 77) || (md_kind d =? 56)) && wf_labelsb (md_name d).
+Definition v1_map_key (kind : N) (n : list bytes) (wild : bool) : bytes :=
+  [0; kind] ++ pack_labels n ++ [suffix_of wild].
+
+Lemma map_kvs_v1_decls : forall decls,
+  map_kvs false false (map decl_line decls) =
+  Some (map (fun d => (v1_map_key (md_kind d) (md_name d) (md_wild d), mapid_bytes (md_id d))) decls).
+Proof.
+  induction decls as [|d decls IH]; [reflexivity|].
+  cbn [map map_kvs]. rewrite IH. reflexivity.
+Qed.
+
+Lemma v1_map_key_inj : forall k n w k' n' w', wf_labelsb n = true -> wf_labelsb n' = true ->
+  v1_map_key k n w = v1_map_key k' n' w' -> k = k' /\ n = n' /\ w = w'.
+Proof.
+  unfold v1_map_key. intros k n w k' n' w' W W' H. cbn [app] in H.
+  injection H as E1 E2. apply app_inj_tail in E2. destruct E2 as [E2 E3].
+  apply pack_labels_inj in E2; auto. split; auto. split; auto.
+  destruct w, w'; auto; discriminate E3.
+Qed.
+
+Lemma get_decls : forall decls kind n wild, forallb wf_declb decls = true -> wf_labelsb n = true ->
+  get (map (fun d => (v1_map_key (md_kind d) (md_name d) (md_wild d), mapid_bytes (md_id d))) decls)
+      (v1_map_key kind n wild) = option_map mapid_bytes (lookup_decl decls kind wild n)
+  \/ False.
+Proof.
+  intros decls kind n wild Wd Wn. left.
+  induction decls as [|d decls IH]; [reflexivity|].
+  simpl in Wd. apply Bool.andb_true_iff in Wd. destruct Wd as [Wd1 Wd2].
+  unfold wf_declb in Wd1. apply Bool.andb_true_iff in Wd1. destruct Wd1 as [_ Wl].
+  cbn [map get lookup_decl].
+  destruct (bytes_eqb _ _) eqn:E.
+  - apply bytes_eqb_eq in E. apply v1_map_key_inj in E; auto. destruct E as [E1 [E2 E3]].
+    rewrite E1, E3, N.eqb_refl, Bool.eqb_reflx. cbn [andb].
+    assert (L : labels_eqb (md_name d) n = true) by (apply labels_eqb_eq; auto). rewrite L. reflexivity.
+  - destruct ((md_kind d =? kind) && Bool.eqb (md_wild d) wild && labels_eqb (md_name d) n) eqn:C.
+    + apply Bool.andb_true_iff in C. destruct C as [C C3]. apply Bool.andb_true_iff in C. destruct C as [C1 C2].
+      apply N.eqb_eq in C1. apply Bool.eqb_prop in C2. apply labels_eqb_eq in C3. subst.
+      rewrite bytes_eqb_refl in E. discriminate.
+    + apply IH; auto.
+Qed.
+
+Theorem cdb_map_records : forall f decls db kind n wild,
+  f_maps f = map decl_line decls -> forallb wf_declb decls = true -> cdb_db f = Some db ->
+  kind = 77 \/ kind = 56 -> wf_labelsb n = true ->
+  get db (v1_map_key kind n wild) = option_map (fun id => mapid_bytes id) (lookup_decl decls kind wild n).
+Proof.
+  intros f decls db kind n wild Hm Wd Hdb Hk Wn.
+  unfold cdb_db in Hdb. rewrite Hm, map_kvs_v1_decls in Hdb. inversion Hdb as [Edb]. clear Hdb.
+  rewrite get_app, get_none.
+  2:{ intros k' v Hin. apply in_map_iff in Hin. destruct Hin as [x [E _]]. inversion E.
+      intro C. apply (f_equal (fun k => nth 1 k 0)) in C. cbn [nth net_key app v1_map_key] in C.
+      destruct Hk; subst; discriminate C. }
+  rewrite get_app.
+  destruct (get_decls decls kind n wild Wd Wn) as [G|[]]. rewrite G.
+  destruct (lookup_decl decls kind wild n); [reflexivity|]. cbn [option_map].
+  apply get_none. intros k' v Hin.
+  intro C. apply (f_equal (fun k => nth 1 k 0)) in C. cbn [nth app v1_map_key] in C.
+  cbn [In] in Hin. destruct Hin as [Hin|[Hin|[Hin|[Hin|[]]]]]; inversion Hin; subst k';
+    cbn [nth features_key] in C; destruct Hk; subst; discriminate C.
+Qed.
